@@ -135,6 +135,34 @@ func oracle(s Stream, idx int, res *lib.Result) {
 		return
 	}
 	input := genBytes(s.Seed, 0, s.total())
+	if s.Kind == "dest" {
+		// over all its connections the destination receives hub messages of the stream, unmodified, strictly
+		// forward, none twice; messages lost at a cut or dropped for the lagging path are allowed
+		input = s.wsoutInput()
+		lastK, lastConn := -1, 0
+		for j, f := range o.Frames {
+			k := wsoutIndex(f)
+			conn := 0
+			if j < len(o.Conns) {
+				conn = o.Conns[j]
+			}
+			switch {
+			case k < 0 || k >= s.Count || len(f) != s.Blk || !bytes.Equal(f, input[k*s.Blk:(k+1)*s.Blk]):
+				bad("not-the-message-sent", fmt.Sprintf("message %d received by the destination (connection %d, %d bytes, %s) is not a hub message of the stream", j, conn, len(f), short(f)))
+			case k == lastK:
+				bad("repeat-or-backwards", fmt.Sprintf("the destination received hub message %d (input offset %d) twice: on connection %d and again on connection %d", k, k*s.Blk, lastConn, conn))
+			case k < lastK:
+				bad("repeat-or-backwards", fmt.Sprintf("the destination received hub message %d (input offset %d) on connection %d AFTER hub message %d (offset %d) on connection %d: an older slice after a newer one", k, k*s.Blk, conn, lastK, lastK*s.Blk, lastConn))
+			}
+			if k > lastK {
+				lastK, lastConn = k, conn
+			}
+		}
+		if len(o.Frames) == 0 {
+			bad("nothing-received", "the destination received nothing at all")
+		}
+		return
+	}
 	if s.Kind == "wsout" {
 		input = s.wsoutInput()
 		// every websocket message received is a contiguous slice of the stream, and the messages go forward
@@ -270,6 +298,9 @@ func main() {
 			if i%23 == 22 {
 				kind = "wsout"
 			}
+			if i%23 == 11 {
+				kind = "dest"
+			}
 			streams = append(streams, genStream(r, kind, i))
 		}
 	}
@@ -316,6 +347,13 @@ func main() {
 		res.Count("streams:" + s.Kind)
 		res.CountN("bytes-posted", o.Posted)
 		res.CountN("hand-offs", len(o.Tap))
+		if s.Kind == "dest" {
+			res.CountN("dest:hub-messages", s.Count)
+			res.CountN("dest:messages-received", len(o.Frames))
+			if n := len(o.Conns); n > 0 {
+				res.CountN("dest:connections", o.Conns[n-1])
+			}
+		}
 		if s.Kind == "wsout" {
 			res.CountN("wsout:hub-messages", s.Count)
 			res.CountN("wsout:websocket-messages-received", len(o.Frames))
